@@ -1,4 +1,4 @@
-import OnlVerif.Lemmas.SPKRefine
+import OnlVerif.Lemmas.SPKFinal
 import OnlVerif.Props.C12
 import OnlVerif.Props.C13
 /-!
@@ -123,6 +123,154 @@ theorem kernel_counters_eq (F : Nat) (flow size : Int → Nat) (cfg : SP.Cfg ℚ
   C12.mq_counters_eq (SP.sched cfg) (SP.lawful cfg) (SP.Pc.scan 0) 0 [] _ _ _
     (sp_on_kernel_refines_lts F flow size cfg arrivals hw ht hr fuel s hreach) f
 
+/-! ### the direct form: strict priority, exact service times, work conservation, drain -/
+
+/-- **What the oracle accepts** (`SPOnK.ostep` at exact rational time, spelled out).  A `serve id t` observation is accepted
+in oracle state `o` iff nothing is in transmission, `id` is the oldest waiting packet of its flow, some table entry
+`(flow id, π)` has `π > 0` and every waiting packet of a flow with a priority above `π` was put at an instant `≥ t` (none
+waits from an earlier instant), and `t` is the instant of the last departure or the instant at which every waiting packet was
+put; an `out id t` observation is accepted iff `id` is in transmission since `s` and `t = s + 8·size/rate`. -/
+theorem oracle_accepts_iff (F : Nat) (flow size : Int → Nat) (cfg : SP.Cfg ℚ) (o : OSt ℚ) (id : Int) (t : ℚ) :
+    ((ostep F flow size cfg o (.serve id t)).isSome ↔
+      o.busy = none ∧ (∃ tp rest, o.waiting (flow id) = (id, tp) :: rest) ∧
+      (∃ π, (flow id, π) ∈ cfg.prios ∧ 0 < π ∧
+        ∀ f', f' < F → ∀ π', (f', π') ∈ cfg.prios → π < π' → ∀ x ∈ o.waiting f', t ≤ x.2) ∧
+      (o.lastOut = some t ∨ ∀ f, f < F → ∀ x ∈ o.waiting f, x.2 = t)) ∧
+    ((ostep F flow size cfg o (.out id t)).isSome ↔ ∃ s, o.busy = some (id, s) ∧ t = s + (size id * 8 : ℕ) / cfg.rate) := by
+  constructor
+  · simp only [ostep]
+    split
+    · rename_i h
+      simp only [Option.isSome_some, true_iff]
+      obtain ⟨h1, h2, ⟨e, he, he1, he2, he3⟩, h4⟩ := h
+      refine ⟨by cases hb : o.busy <;> simp_all, ?_, ⟨e.2, by rw [← he1]; exact he, he2, ?_⟩, ?_⟩
+      · cases hw : o.waiting (flow id) with
+        | nil => simp [hw] at h2
+        | cons x r =>
+          simp only [hw, List.head?_cons, Option.map_some, Option.some.injEq] at h2
+          exact ⟨x.2, r, by rw [← h2]⟩
+      · intro f' hf' π' hm hlt x hx
+        exact not_lt.mp (he3 f' (List.mem_range.mpr hf') ⟨(f', π'), hm, rfl, hlt⟩ x hx)
+      · rcases h4 with h4 | h4
+        · left
+          cases hl : o.lastOut with
+          | none => simp [hl, lastIs] at h4
+          | some d => simp only [hl, lastIs] at h4; rw [(eqT_iff _ _).mp h4]
+        · right
+          intro f hf x hx
+          exact (eqT_iff _ _).mp (h4 f (List.mem_range.mpr hf) x hx)
+    · rename_i h
+      simp only [Option.isSome_none, Bool.false_eq_true, false_iff]
+      rintro ⟨h1, ⟨tp, r, h2⟩, ⟨π, hm, hpos, h3⟩, h4⟩
+      apply h
+      refine ⟨by simp [h1], by simp [h2], ⟨(flow id, π), hm, rfl, hpos, ?_⟩, ?_⟩
+      · rintro f' hf' ⟨e', he', he1, he2⟩ x hx
+        exact not_lt.mpr (h3 f' (List.mem_range.mp hf') e'.2 (by rw [← he1]; exact he') he2 x hx)
+      · rcases h4 with h4 | h4
+        · left; rw [h4]; exact (eqT_iff _ _).mpr rfl
+        · right; intro f hf x hx; exact (eqT_iff _ _).mpr (h4 f (List.mem_range.mp hf) x hx)
+  · have hiff : OutOK size cfg.rate o id t ↔ ∃ s, o.busy = some (id, s) ∧ t = s + (size id * 8 : ℕ) / cfg.rate := by
+      unfold OutOK
+      cases hb : o.busy with
+      | none => simp
+      | some x =>
+        obtain ⟨id', s0⟩ := x
+        simp only [eqT_iff, SPOnK.txTime, Num.ofNat_rat, Option.some.injEq, Prod.mk.injEq]
+        constructor
+        · rintro ⟨rfl, h⟩; exact ⟨s0, ⟨rfl, rfl⟩, h⟩
+        · rintro ⟨s1, ⟨rfl, rfl⟩, h⟩; exact ⟨rfl, h⟩
+    simp only [ostep]
+    by_cases hok : OutOK size cfg.rate o id t
+    · simp only [hok, if_true, Option.isSome_some, true_iff]
+      exact hiff.mp hok
+    · simp only [hok, if_false, Option.isSome_none, Bool.false_eq_true, false_iff]
+      exact fun h => hok (hiff.mpr h)
+
+/-- **The history of every kernel run passes the oracle, step by step**: at every state reachable by kernel steps the
+`put` / `serve` / `out` observations recorded so far are accepted by `SPOnK.orun` from the empty oracle state — every service
+start so far respected strict priority, per-flow FIFO, one-at-a-time and work conservation, every departure came exactly
+`8·size/rate` after its service start (`oracle_accepts_iff`). -/
+theorem sp_on_kernel_history_accepted (F : Nat) (flow size : Int → Nat) (cfg : SP.Cfg ℚ) (arrivals : List (ℚ × Int))
+    (hw : WorkOK flow F cfg arrivals) (ht : TableOK F cfg) (hr : 0 < cfg.rate) (fuel : Nat) (s : KState ℚ (SpSt ℚ))
+    (hreach : KReach (prog F flow size cfg) (fuel + 1) (initState F arrivals) s) :
+    ∃ o, orun F flow size cfg oInit (histOf s.trace) = some o := by
+  obtain ⟨a, hi⟩ := reach_inv3 (size := size) fuel hw ht hr hreach
+  obtain ⟨o, ho⟩ := hi.o
+  exact ⟨o, ho.run⟩
+
+/-- **Strict priority, exact service times, work conservation and drain for the SP scheduler as kernel processes (direct
+form, no admissibility assumption).**  For every number of flows `F`, every priority table over them, every `rate > 0` and
+every finite workload with non-negative gaps whose packets belong to flows with a positive priority (bursts and arrivals
+exactly at transmission ends included), `run()` of the kernel model on the spawned processes
+
+* returns (agenda empty, no exception ever leaves `step()`) within `10·n + 4` kernel steps;
+* has handed exactly the workload to `put`: packet `k` at the sum of the first `k + 1` gaps (`arrivalsFrom`);
+* has a `put` / `serve` / `out` history that the oracle accepts (`oracle_accepts_iff`): at every service start nothing else
+  was in transmission, the packet was the oldest of its flow, **no packet of a flow with a strictly higher priority was
+  waiting from an earlier instant**, and the service started **at the very instant the previous transmission ended or at the
+  instant the waiting packets arrived** (never idle with a backlog); every packet left **exactly `8·size/rate`** after its
+  service start;
+* ends drained: nothing waits, nothing is in transmission, and for every flow the packets handed to `out.put` are exactly
+  the packets of that flow handed to `put`, in the same order (every packet leaves once, per flow in arrival order). -/
+theorem sp_on_kernel_strict_priority (F : Nat) (flow size : Int → Nat) (cfg : SP.Cfg ℚ) (arrivals : List (ℚ × Int))
+    (hw : WorkOK flow F cfg arrivals) (ht : TableOK F cfg) (hr : 0 < cfg.rate) (fuel n : Nat)
+    (hn : 10 * arrivals.length + 4 ≤ n) :
+    ∃ sF o, runAll (prog F flow size cfg) (fuel + 1) n (initState F arrivals) = .returned .none sF ∧ sF.agenda = [] ∧
+      obsPuts (histOf sF.trace) = arrivalsFrom 0 arrivals ∧
+      orun F flow size cfg oInit (histOf sF.trace) = some o ∧ drained F o = true ∧
+      ∀ f, ofFlow f (outPk flow size (histOf sF.trace)) = ofFlow f (putPk flow size (histOf sF.trace)) := by
+  obtain ⟨sF, aF, h1, h2, h3, h4⟩ := run_returns3 fuel (initState F arrivals) n _ _
+    (inv3_init (size := size) hw ht hr) (by rw [a0_mu]; omega) KReach.init
+  obtain ⟨o, g1, g2, g3, g4⟩ := inv3_final h2 h3
+  refine ⟨sF, o, h1, h3, g3, g1, g2, ?_⟩
+  intro f
+  have := kernel_flow_fifo F flow size cfg arrivals hw ht hr fuel sF h4 f
+  rw [absSP_eq h2.i, g4 f] at this
+  simpa [ofFlow] using this.symm
+
+/-- **Strict priority at the decision burst, on kernel states**: let `s` be reachable by kernel steps and let the next
+kernel step be one in which `run` takes a packet (the abstraction of the state after it has `run` holding a freshly taken
+packet `p` of flow `c`, the one before has not).  Then `c` has a table entry `(c, π)` with `π > 0`, `p` was the head of
+`stores[c]` in `s`, and **the store of every flow with a table entry of priority above `π` is empty in `s`** — read from the
+`Store` resources of the kernel state itself. -/
+theorem sp_on_kernel_decision_strict (F : Nat) (flow size : Int → Nat) (cfg : SP.Cfg ℚ) (arrivals : List (ℚ × Int))
+    (hw : WorkOK flow F cfg arrivals) (ht : TableOK F cfg) (hr : 0 < cfg.rate) (fuel : Nat) (s s' : KState ℚ (SpSt ℚ))
+    (hreach : KReach (prog F flow size cfg) (fuel + 1) (initState F arrivals) s)
+    (hstep : step (prog F flow size cfg) (fuel + 1) s = .ok s') (c : Nat) (p : MPkt)
+    (hpost : (absSP flow size s').phase = .pktHanded c p) (hpre : ∀ c p, (absSP flow size s).phase ≠ .pktHanded c p) :
+    ∃ π, (c, π) ∈ cfg.prios ∧ 0 < π ∧
+      (∃ id is, (s.res (flowStore c)).items = id :: is ∧ p = pktOf flow size id) ∧
+      ∀ f' π', (f', π') ∈ cfg.prios → π < π' → (s.res (flowStore f')).items = [] := by
+  obtain ⟨a, hi⟩ := reach_inv3 (size := size) fuel hw ht hr hreach
+  cases hp : popMin s.agenda with
+  | none => simp [_root_.step, hp] at hstep
+  | some qr =>
+    obtain ⟨q, rest⟩ := qr
+    obtain ⟨s'', a', new, h1, h2, -, h4, -⟩ := inv_step_lts (size := size) fuel hi.i hp
+    rw [h1] at hstep
+    cases hstep
+    rw [absSP_eq h2] at hpost
+    have hpre' : ∀ g i id q0, a.run ≠ .H g i id q0 := by
+      intro g i id q0 h
+      exact hpre (flow id) (pktOf flow size id) (by rw [absSP_eq hi.i]; simp [toM, phaseOf, h])
+    cases hrun' : a'.run with
+    | H g i id q' =>
+      simp only [toM, phaseOf, hrun', Phase.pktHanded.injEq] at hpost
+      obtain ⟨rfl, rfl⟩ := hpost
+      obtain ⟨ent, hm, e1, e2, ⟨is, e3⟩, e4⟩ := astep_decision hi.i.i.a h4 hrun' hpre'
+      have hfid : flow id < F := by rw [← e1]; exact ht ent hm
+      refine ⟨ent.2, by rw [← e1]; exact hm, e2, ⟨id, is, by rw [hi.i.i.k.st _ hfid, e3]; rfl, rfl⟩, ?_⟩
+      intro f' π' hm' hlt
+      have hf' : f' < F := ht (f', π') hm'
+      rw [hi.i.i.k.st f' hf', e4 f' hf' ⟨(f', π'), hm', rfl, hlt⟩]
+      rfl
+    | init q0 => simp [toM, phaseOf, hrun'] at hpost
+    | W g => simp [toM, phaseOf, hrun'] at hpost
+    | K g q0 => simp [toM, phaseOf, hrun'] at hpost
+    | S p0 id q0 => simp [toM, phaseOf, hrun'] at hpost
+    | T p0 t id q0 => simp [toM, phaseOf, hrun'] at hpost
+    | F p0 id q0 => simp [toM, phaseOf, hrun'] at hpost
+
 /-! ### concrete runs of the kernel model, evaluated by the kernel of Lean (exact arithmetic) -/
 
 /-- flows 1, 2, 3 with priorities 1 (L), 3 (M), 5 (H), rate 8 (a packet of size 1 is transmitted in one time unit) -/
@@ -168,6 +316,30 @@ example : (match runAll (prog 4 (flowOf [1, 3, 2]) unit cfg3) 1 13 (initState 4 
     | .outOfFuel s => some (MQ.phaseName (absSP (flowOf [1, 3, 2]) unit s), (absSP (flowOf [1, 3, 2]) unit s).queueCount,
         (absSP (flowOf [1, 3, 2]) unit s).now)
     | _ => none) = some ("S", [(1, 0), (3, 1)], 2) := by
+  decide +kernel
+
+/-- the hypotheses of the theorems are met by that workload (`WorkOK`, `TableOK`), and the history of its run is accepted by
+the oracle and ends drained -/
+example : WorkOK (flowOf [1, 2, 3, 3, 1, 3]) 4 cfg3 [(0, 0), (0, 1), (0, 2), (1, 3), (1, 4), (0, 5)] ∧ TableOK 4 cfg3 := by
+  refine ⟨?_, by unfold TableOK cfg3; decide⟩
+  intro x hx
+  simp only [List.mem_cons, List.not_mem_nil, or_false] at hx
+  rcases hx with rfl | rfl | rfl | rfl | rfl | rfl <;>
+    exact ⟨by norm_num, by decide, by first | exact ⟨1, by decide, by decide⟩ | exact ⟨3, by decide, by decide⟩ | exact ⟨5, by decide, by decide⟩⟩
+
+example : (finalState (runAll (prog 4 (flowOf [1, 2, 3, 3, 1, 3]) unit cfg3) 1 60
+      (initState 4 [(0, 0), (0, 1), (0, 2), (1, 3), (1, 4), (0, 5)]))).map
+    (fun s => (orun 4 (flowOf [1, 2, 3, 3, 1, 3]) unit cfg3 oInit (histOf s.trace)).map (drained 4)) = some (some true) := by
+  decide +kernel
+
+/-- the oracle is not vacuous.  Packets 0, 1 are L, packet 2 is H; 0 is in transmission 0→1 while 1 and 2 arrive at 1/2.
+Serving H at 1 is accepted; serving L at 1 is rejected (H waits since 1/2); a service that starts late (at 2, with a backlog
+and no departure at 2) is rejected; a departure later than `start + 8·size/rate` is rejected. -/
+example : orun 4 (flowOf [1, 1, 3]) unit cfg3 oInit
+      [.put 0 0, .serve 0 0, .put 1 (1/2), .put 2 (1/2), .out 0 1, .serve 2 1, .out 2 2, .serve 1 2, .out 1 3] ≠ none ∧
+    orun 4 (flowOf [1, 1, 3]) unit cfg3 oInit [.put 0 0, .serve 0 0, .put 1 (1/2), .put 2 (1/2), .out 0 1, .serve 1 1] = none ∧
+    orun 4 (flowOf [1, 1, 3]) unit cfg3 oInit [.put 0 0, .serve 0 2] = none ∧
+    orun 4 (flowOf [1, 1, 3]) unit cfg3 oInit [.put 0 0, .serve 0 0, .out 0 2] = none := by
   decide +kernel
 
 end C13K
